@@ -32,6 +32,7 @@ PLAN = {
         'fronts': [],
         'bounded': [],
         'assumptions': ['indent/width are None or int (not bool), line_break is None or str -- the types dump() documents',
+                        'line breaks: proved is that the writers under contract (plain, single-quoted, literal, folded) never pass a line feed of the text to write_line_break (it is written as the effective break); that NEL/LS/PS are the only other breaks passed, and the escapes of write_double_quoted, are NOT discharged (write_double_quoted is used through its frame)',
                         'the stream is modelled by a ghost log of the chunks handed to write(); a codec that cannot encode a chunk raises UnicodeEncodeError, which passes through'],
         'explanation': 'contracts on the emitter functions that implement the formatting options',
     },
@@ -64,8 +65,8 @@ PLAN = {
     },
     'C12': {
         'fronts': [], 'bounded': [],
-        'assumptions': ['the stream is modelled by a ghost log of the chunks handed to write()', 'scalar writers and analyze_scalar are not under contract: "no content line starts with --- / ..." is NOT claimed'],
-        'explanation': 'emitter: only the first document may omit the --- marker and only when nothing asks for it, explicit_end writes ..., tag prefixes are rebuilt per document, write_indent puts the marker at column 0; parser: document loop (DOCUMENT-END skipping, directives consumed, implicit documents get the default handles)',
+        'assumptions': ['the stream is modelled by a ghost log of the chunks handed to write()', 'the scalar writers are under contract for indices, position bookkeeping, frame, exception class and the line-feed rule only (write_double_quoted: frame only): "no content line starts with --- / ..." is NOT claimed'],
+        'explanation': 'emitter: only the first document may omit the --- marker and only when nothing asks for it, explicit_end writes ..., an open-ended document is closed with ... before the %YAML/%TAG lines of the next document and before the stream end, tag prefixes are rebuilt per document, write_indent puts the marker at column 0; parser: document loop (DOCUMENT-END skipping, directives consumed, implicit documents get the default handles)',
     },
     'C05': {
         'fronts': [], 'bounded': [],
@@ -99,7 +100,7 @@ PLAN = {
     'C14': {
         'fronts': [], 'bounded': ['c14_merge.py'],
         'assumptions': ['registered constructors follow the constructor protocol (assumed)', 'merge flattening (flatten_mapping, SafeConstructor.construct_mapping) is covered by a BOUNDED stand-in only: the node-graph invariant it needs is hereditary through recursion and its nested quantifiers did not discharge within budget'],
-        'explanation': 'BaseConstructor.construct_mapping / construct_pairs / construct_sequence under discharged contracts (only mapping/sequence nodes accepted, unhashable keys -> ConstructorError, one entry per item, caches only grow); merge precedence rules searched exhaustively on small node graphs incl. shared merge sources (bounded, labelled)',
+        'explanation': 'BaseConstructor.construct_mapping / construct_pairs / construct_sequence under discharged contracts (only mapping/sequence nodes accepted, unhashable keys -> ConstructorError, one entry per item, caches only grow); merge precedence rules searched exhaustively on small node graphs incl. shared merge sources and re-construction of every merge source after its user (bounded, labelled)',
     },
     'C18': {
         'fronts': ['pyvc.fronts.effects:run_c18'], 'bounded': [],
